@@ -310,3 +310,85 @@ fn c10_index_opt_reads_model_position() {
     kani::cover!(i == 1);
     core::mem::forget((r, rb));
 }
+
+/// Independent UTF-8 segmentation after the Unicode standard (Table 3-7 "Well-Formed UTF-8 Byte
+/// Sequences" and the "substitution of maximal subparts" practice): the length in bytes of the
+/// character starting at `i`, where an ill-formed MAXIMAL SUBPART (the longest prefix of a well-formed
+/// sequence, at least one byte) counts as one character.
+fn m_char_len(s: &[u8], i: usize) -> usize {
+    let b0 = s[i];
+    let at = |k: usize| if i + k < s.len() { Some(s[i + k]) } else { None };
+    let is_cont = |b: Option<u8>| matches!(b, Some(0x80..=0xBF));
+    let second_ok = |lo: u8, hi: u8| matches!(at(1), Some(b) if lo <= b && b <= hi);
+    match b0 {
+        0x00..=0x7F => 1,
+        0xC2..=0xDF => {
+            if second_ok(0x80, 0xBF) {
+                2
+            } else {
+                1
+            }
+        }
+        0xE0..=0xEF => {
+            let (lo, hi) = match b0 {
+                0xE0 => (0xA0, 0xBF),
+                0xED => (0x80, 0x9F),
+                _ => (0x80, 0xBF),
+            };
+            if !second_ok(lo, hi) {
+                1
+            } else if is_cont(at(2)) {
+                3
+            } else {
+                2
+            }
+        }
+        0xF0..=0xF4 => {
+            let (lo, hi) = match b0 {
+                0xF0 => (0x90, 0xBF),
+                0xF4 => (0x80, 0x8F),
+                _ => (0x80, 0xBF),
+            };
+            if !second_ok(lo, hi) {
+                1
+            } else if !is_cont(at(2)) {
+                2
+            } else if is_cont(at(3)) {
+                4
+            } else {
+                3
+            }
+        }
+        _ => 1,
+    }
+}
+
+//@ tier: quick
+//@ funcs: skip_take_chars, bstr::ByteSlice::char_indices
+//@ bounds: every byte string of length 3 (all 2^24: 1-, 2- and 3-byte characters, ill-formed sequences); both bounds absent or any PosUsize
+//@ assume: PosUsize invariant (as established by as_pos_usize)
+//@ asserts: positions count CHARACTERS of an independent UTF-8 segmentation (Unicode Table 3-7; an ill-formed maximal subpart is one character): the byte range returned is [boundary(from), boundary(upto)) of the position model applied to the character count -- so slicing text never splits a character, negative positions count characters from the end, and out-of-range bounds clip
+#[kani::proof]
+#[kani::unwind(8)]
+fn c10_skip_take_chars_any_3_bytes() {
+    let b: [u8; 3] = kani::any();
+    // character boundaries by the independent model: bnd[k] = byte offset of character k, bnd[n] = 3
+    let mut bnd = [3usize; 4];
+    let (mut i, mut n) = (0usize, 0usize);
+    while i < 3 {
+        bnd[n] = i;
+        i += m_char_len(&b, i);
+        n += 1;
+    }
+    let (s, e) = (any_opt_pos(), any_opt_pos());
+    let (skip, take) = skip_take_chars(s..e, &b);
+    let l = n as i128;
+    let from = m_bound(s.map(m_val), l, 0);
+    let upto = m_bound(e.map(m_val), l, l);
+    let (fb, ub) = (bnd[from as usize], bnd[upto as usize]);
+    assert!(skip == fb);
+    assert!(take == if ub > fb { ub - fb } else { 0 });
+    kani::cover!(n == 1);
+    kani::cover!(n == 2 && s.is_some() && !s.unwrap().0 && take > 0);
+    kani::cover!(n == 3 && b[0] >= 0x80);
+}
